@@ -142,13 +142,15 @@ def _buffers(obj, out, depth=0):
             out.append(("np", np.ascontiguousarray(obj).view("uint8").tobytes() if obj.size else b""))
         return
     if isinstance(obj, pd.Series):
+        out.append(("name", repr(obj.name).encode()))
         _buffers(obj.index, out, depth + 1)
         _buffers(obj.array, out, depth + 1)
         return
     if isinstance(obj, pd.MultiIndex):
-        out.append(("mi", repr(obj.tolist()).encode()))
+        out.append(("mi", repr((list(obj.names), obj.tolist())).encode()))
         return
     if isinstance(obj, pd.Index):
+        out.append(("names", repr(list(obj.names)).encode()))
         _buffers(obj.array if not isinstance(obj, pd.RangeIndex) else np.asarray(obj), out, depth + 1)
         return
     if isinstance(obj, pd.Categorical):
@@ -185,10 +187,12 @@ def _buffers(obj, out, depth=0):
             _buffers(obj[c], out, depth + 1)
         return
     if isinstance(obj, dict):
+        out.append(("dict", repr([(repr(k), type(v).__name__, str(getattr(v, "dtype", ""))) for k, v in obj.items()]).encode()))
         for v in obj.values():
             _buffers(v, out, depth + 1)
         return
     if isinstance(obj, (list, tuple)):
+        out.append(("seq", repr([(type(v).__name__, str(getattr(v, "dtype", "")), repr(getattr(v, "name", None))) for v in obj]).encode()))
         for v in obj:
             _buffers(v, out, depth + 1)
         return
